@@ -76,9 +76,12 @@ impl Default for GenOpts {
 }
 
 // small ids, negative ids, i32::MAX, and ids that an f32 cannot represent (|id| > 2^24)
-pub const ID_POOL: [i32; 11] = [0, 1, 2, 3, 7, -1, -5, 2147483647, 16777217, -2000000001, 123456789];
+// (neighbouring ids beyond 2^24, where f32 cannot tell them apart, and at the i32 limits)
+pub const ID_POOL: [i32; 16] = [0, 1, 2, 3, 7, -1, -5, 2147483647, 16777217, -2000000001, 123456789, 16777216, 2147483646, -2000000002, -2147483648, -2147483647];
 
-pub const HOSTILE_COMMENTS: [&str; 16] = [
+pub const HOSTILE_COMMENTS: [&str; 17] = [
+    // longer than any fixed-size buffer or format width one might think of (320 characters)
+    "comentario muy largo: 0123456789 0123456789 0123456789 0123456789 0123456789 0123456789 0123456789 0123456789 0123456789 0123456789 0123456789 0123456789 0123456789 0123456789 0123456789 0123456789 0123456789 0123456789 0123456789 0123456789 0123456789 0123456789 0123456789 0123456789 0123456789 0123456789 0123456789 fin del comentario",
     // the texts the library itself writes on the lines it generates: a declared line carrying one is still a declared line
     "Equilibrado de consumo sin producción declarada",
     "Reasignación automática de consumos auxiliares",
@@ -708,6 +711,20 @@ pub fn building(r: &mut Rng, o: &GenOpts) -> Spec {
         }
         if o.hostile_comments && g.r.chance(1, 2) {
             meta.push(("Nombre <proyecto> & \"co\"".to_string(), g.r.pick(&HOSTILE_COMMENTS).trim().to_string()));
+        }
+        if g.r.chance(1, 4) {
+            // the same key on two lines with different values (both are kept; readers use the first)
+            let k = *g.r.pick(&["CTE_AREAREF", "Nota", "CTE_FUENTE"]);
+            meta.push((k.to_string(), format!("{}", 1 + g.r.below(900))));
+            if k != "CTE_AREAREF" {
+                meta.push((k.to_string(), format!("otra {}", g.r.below(90))));
+            }
+        }
+        if g.r.chance(1, 6) {
+            // keys older versions of the program or its manual gave a meaning to: today they are plain metadata
+            let k = *g.r.pick(&["CTE_ACS_DEMANDA_ANUAL", "CTE_DEMANDA_ACS_PCT_BIOMASA", "CTE_PERIMETRO", "CTE_COGEN"]);
+            let v = format!("{}", 10 + g.r.below(5000));
+            meta.push((k.to_string(), v));
         }
     }
     Spec { n, meta, lines }
